@@ -455,17 +455,21 @@ class Client:
         code, data, challenge = self.__send_command(
             "AUTHENTICATE", [b"DIGEST-MD5"], withcontent=True, nblines=1
         )
+        if code is not None:
+            # the server answered with a response instead of a challenge
+            return False
         dmd5 = DigestMD5(challenge, "sieve/%s" % self.srvaddr)
 
+        response = dmd5.response(login, password, authz_id).decode("ascii")
         code, data, challenge = self.__send_command(
-            '"%s"' % dmd5.response(login, password, authz_id),
+            '"%s"' % response,
             withcontent=True,
             nblines=1,
         )
-        if not challenge:
+        if code is not None or not challenge:
             return False
         if not dmd5.check_last_challenge(login, password, challenge):
-            self.errmsg = "Bad challenge received from server"
+            self.errmsg = b"Bad challenge received from server"
             return False
         code, data = self.__send_command('""')
         if code == "OK":
